@@ -58,11 +58,15 @@ type event struct {
 	Msg   string          `json:"msg,omitempty"`
 	Items [][]interface{} `json:"items,omitempty"`
 	Qs    [][]interface{} `json:"qs"`
+	Quiet int             `json:"quiet"` // 1: the queues were NOT looked at after this call (qs is empty)
 }
 
 type runner struct {
 	qs    []utils.PriorityQueue
 	kinds []string
+	// quiet: no accessor is called between the operations of the history (looking at a queue - ToSlice, Values, Len -
+	// may itself tidy up what an operation left behind); the queues are dumped after the last operation only
+	quiet bool
 }
 
 func contents(q utils.PriorityQueue) []interface{} {
@@ -115,13 +119,13 @@ func (r *runner) exec(o op, hid, i int) (ev event) {
 		r.qs[o.Q-1].Push(utils.NewPriorityQueueItem(prio, item{o.P, o.T}))
 		ev.P, ev.T = o.P, o.T
 	case "pop":
-		if (hid+i)%3 == 0 {
+		if (hid+i)%3 == 0 && !r.quiet {
 			readOnly(r.qs[o.Q-1])
 		}
 		it := r.qs[o.Q-1].Pop()
 		ev.P, ev.T = int(it.Priority()), it.Value().(item).T
 	case "peek":
-		if (hid+i)%2 == 0 {
+		if (hid+i)%2 == 0 && !r.quiet {
 			readOnly(r.qs[o.Q-1])
 		}
 		it := r.qs[o.Q-1].Peek()
@@ -132,7 +136,11 @@ func (r *runner) exec(o op, hid, i int) (ev event) {
 		// the new queue's kind is observable only through its later pops / peeks,
 		// which the trace specification checks against the opposite order
 	}
-	ev.Qs = r.dump()
+	if r.quiet {
+		ev.Qs, ev.Quiet = [][]interface{}{}, 1
+	} else {
+		ev.Qs = r.dump()
+	}
 	return ev
 }
 
@@ -191,6 +199,7 @@ func replay(in, out, driftOut string) {
 		r := &runner{}
 		var last event
 		for i, o := range h.H {
+			r.quiet = hid%2 == 1 && i < len(h.H)-1
 			last = r.exec(o, hid, i)
 			enc.Encode(last)
 			nev++
